@@ -7,7 +7,7 @@
    stream case = (plan (wire-frame ...)); the harness reads only the wire frames. *)
 From Coq Require Import ZArith List Bool.
 From V Require Import Val Bytes C06Rtp C06NalDepack C06H264Depack C06H265Depack C06AacDepack C06SyncClock C06Demux
-  C07Cache C07Contain RunC06.
+  C07Cache C07Contain C07Meta RunC06.
 Import ListNotations.
 Open Scope Z_scope.
 
@@ -45,16 +45,33 @@ Definition x_C07_gen (v : val) : val :=
 Definition run_c07 (k : c07case) : list oframe * bool :=
   let '(_, fs, pn) := drun (s_cd k) (s_clock k) dst_init (c07_all_events k) in (fs, pn).
 
+(* the stream's shared video metadata, observed after the run as three pseudo-frames (media types 97..99) *)
+Definition is_hevc (c : cd) : bool := match c with CH265 => true | _ => false end.
+Definition init_meta (c : cd) : vmeta :=
+  match c with
+  | CH265 => mkM [64; 1; 2] [66; 1; 2] [68; 1; 2]
+  | _ => mkM [] [103; 1; 2; 3] [104; 1; 2; 3]
+  end.
+Definition meta_frames (m : vmeta) : list oframe := [mkO 97 0 (m_vps m); mkO 98 0 (m_sps m); mkO 99 0 (m_pps m)].
+Definition video_nals (fs : list oframe) : list bytes := map o_pl (filter (fun o => o_mt o =? 0) fs).
+Definition meta_after (c : cd) (fs : list oframe) : vmeta := meta_run (is_hevc c) (init_meta c) (video_nals fs).
+Definition is_meta_frame (o : oframe) : bool := 97 <=? o_mt o.
+
 Definition x_C07_run (v : val) : val :=
-  let '(fs, pn) := run_c07 (dec_c07 (nthv 0 v)) in enc_out fs pn.
+  let k := dec_c07 (nthv 0 v) in
+  let '(fs, pn) := run_c07 k in enc_out (fs ++ meta_frames (meta_after (s_cd k) fs)) pn.
 
 Definition ok_c07 (k : c07case) (obs : list oframe) (dead : bool) : bool :=
   ok_suffix (s_cd k) (s_clock k) (s_pinned k) (s_rt k) (s_suffix k) obs dead.
 
+(* ... and the metadata the stream had before the input is the metadata it has afterwards *)
+Definition meta_kept (c : cd) (obs : list oframe) : bool :=
+  list_eqb oframe_eqb (filter is_meta_frame obs) (meta_frames (init_meta c)).
+
 Definition x_C07_ok (v : val) : val :=
   let k := dec_c07 (nthv 0 (nthv 0 v)) in
   let '(obs, dead) := dec_obs (nthv 1 v) in
-  vbool (ok_c07 k obs dead).
+  vbool (ok_c07 k (filter (fun o => negb (is_meta_frame o)) obs) dead && meta_kept (s_cd k) obs).
 
 (* inside the theorem's guard? *)
 Definition c07_wf (k : c07case) : bool :=
